@@ -211,6 +211,19 @@ fn run(sh: &mut Shard) {
         }
         sh.running()
     });
+    // deep control chains (C11), all paths
+    super::c11::deep_chains(if tier == Tier::Quick { 4 } else { 5 }, &mut |prog| {
+        if sh.mine() {
+            let text = printer::program(prog);
+            sh.begin(&|| text.clone());
+            sh.count("family:deep-chains");
+            let c = check_ast(sh, &ops, "deep-chains", &text, &prog.to_vec());
+            if c.compiled {
+                sh.nontrivial(&text);
+            }
+        }
+        sh.running()
+    });
     // nesting templates: every ordered pair / triple of constructs
     for depth in 1..=(if tier == Tier::Quick { 2 } else { 3 }) {
         crate::compose::for_each(depth, &mut |_, prog| {
